@@ -36,7 +36,7 @@ def run(ck):
     from harness import splitarith
     splitarith.check_translation(ck)
     rng = np.random.default_rng(ck.seed + 707)
-    nfits = ck.n(24, 200)
+    nfits = ck.n(27, 200)
     cases = []
     meta = {}
     for i in range(nfits):
@@ -47,24 +47,31 @@ def run(ck):
         refill = int(rng.choice([1, 2, 3, 5, 8, 15, 40, 1500]))
         nv = int(rng.choice([0, 1, 3, 10, 40, 150]))
         f = 0.0 if i % 6 else 0.1
-        method = ['top_vector_agop_on_subset', 'random_pca', 'linear', 'pca', 'rf_criterion', 'random', 'random_agop_on_subset', 'random_global_agop'][i % 8]
-        tree_iters = [1, 2][(i // 8) % 2] if method == 'random_global_agop' else 0
-        if tree_iters and (i // 8) % 3 == 2:
+        method = ['top_vector_agop_on_subset', 'random_pca', 'linear', 'pca', 'rf_criterion', 'random', 'random_agop_on_subset', 'random_global_agop',
+                  'fixed_vector'][i % 9]
+        tree_iters = [1, 2][(i // 9) % 2] if method == 'random_global_agop' else 0
+        if tree_iters and (i // 9) % 3 == 2:
             n = int(rng.integers(6, L + 1))                     # single-leaf tree that is rebuilt
             refill = int(rng.choice([40, 1500])); nv = 3        # (a refill would apply if the leaf were not the whole tree)
         if tree_iters:
             nv = max(nv, 3)                                     # every build is scored on the caller's validation set
-        X = xr.make_X('distinct_grid' if i % 2 else 'random', n, d, rng)
+        # axis-aligned splits on grid data: rows pairwise distinct (the property's precondition) but projections massively tied
+        tied = method in ('rf_criterion', 'fixed_vector')
+        X = xr.make_X('distinct_grid' if (i % 2 or tied) else 'random', n, d, rng)
+        kwm = {}
+        if method == 'fixed_vector':
+            fv = np.zeros(d, dtype=np.float32); fv[1 + (i // 9) % (d - 1)] = 1.0      # a coordinate with ~33 distinct values
+            kwm['fixed_vector'] = torch.tensor(fv)
         y = xr.make_y(task, X, rng)
         Xv = xr.make_X('random', max(nv, 0), d, rng) + 100.0 * (nv == 0)
         yv = xr.make_y(task, Xv, rng) if nv > 0 else y[:0]
         if nv == 0:
             Xv = Xv[:0]
-        desc = dict(i=i, task=task, n=n, L=L, d=d, refill=refill, nval=nv, f=f, method=method, tree_iters=tree_iters, seed=ck.seed)
+        desc = dict(i=i, task=task, n=n, L=L, d=d, refill=refill, nval=nv, f=f, method=method, tree_iters=tree_iters, tied_projections=tied, seed=ck.seed)
         # proviso of the property: every leaf must end up with a non-empty validation set.
         xr.seed_all(7000 + i + ck.seed)
         model = xr.xRFM(rfm_params=xr.default_rfm_params(iters=(1 if tree_iters else 0), reg=1e-2), max_leaf_size=L, split_method=method,
-                        overlap_fraction=f, verbose=False, use_temperature_tuning=False, refill_size=refill, n_tree_iters=tree_iters)
+                        overlap_fraction=f, verbose=False, use_temperature_tuning=False, refill_size=refill, n_tree_iters=tree_iters, **kwm)
         Xt, yt = torch.tensor(X), torch.tensor(y)
         rec = xr.fit_recorded(model, Xt, yt, torch.tensor(Xv), torch.tensor(yv), timeout=120, tolerate_empty_val=True)
         if rec.error is not None:
